@@ -121,6 +121,13 @@ def proxied_worker(args, scratch):
             if exempt_try:
                 method, path, q, qfeat = r.choice([("PUT", "/vmAgentLog", None, "exempt"), ("POST", "/machine/", "comp=telemetrydata", "exempt"),
                                                   ("PUT", "/VMAGENTLOG", None, "exempt"), ("POST", "/Machine/", "Comp=TelemetryData", "exempt")])
+            elif r.random() < 0.06:
+                # near misses of the two documented exemptions: everything but the exact pair (method, whole target) is signed
+                method, path, q, qfeat = r.choice([("PUT", "/vmAgentLog", "comp=goalstate", "near-exempt"), ("PUT", "/vmAgentLog", "", "near-exempt"),
+                                                  ("POST", "/machine/", "comp=telemetrydata&comp=health&type=x", "near-exempt"), ("POST", "/machine/", "type=x&COMP=TelemetryData", "near-exempt"),
+                                                  ("POST", "/machine/", "comp=telemetrydata&", "near-exempt"), ("POST", "/machine", "comp=telemetrydata", "near-exempt"),
+                                                  ("GET", "/vmAgentLog", None, "near-exempt"), ("PUT", "/machine/", "comp=telemetrydata", "near-exempt"),
+                                                  ("POST", "/vmAgentLog", None, "near-exempt"), ("PUT", "/vmAgentLog/", None, "near-exempt")])
             target = path + ("?" + q if q is not None else "")
             hs, hfeat = gen_headers(r)
             hs.append(("x-vf-id", vid))
